@@ -264,3 +264,103 @@ Theorem C12_lookup_name_shared_refuted : exists ms ms' n,
   ModuleLookup.lookup_c ms n None <> ModuleLookup.lookup_c ms' n None.
 Proof. exact ModuleLookup.lookup_name_shared_refuted. Qed.
 Print Assumptions C12_lookup_name_shared_refuted.
+
+(* ---- round 5: the output does not depend on what the output directory already holds ------------------------------
+   identical_files (libasn1compiler/asn1c_save.c) as a block-wise comparison with block size B (coq/Fix/IdenticalFiles.v) *)
+From A1 Require Import Fix.IdenticalFiles Fix.IdenticalFilesProofs.
+
+(* for every block size B > 0, every two files of any length: the loop says "identical" exactly when they are equal *)
+Theorem C12_identical_iff : forall (A : Type) (eqb : A -> A -> bool),
+  (forall x y, eqb x y = true <-> x = y) -> forall B : nat, B > 0 ->
+  forall a b : list A, identical A eqb B a b = true <-> a = b.
+Proof. exact IdenticalFilesProofs.identical_iff. Qed.
+Print Assumptions C12_identical_iff.
+
+(* the variant "last partial block by length only" (= seeded change C12-9) accepts EXACTLY the pairs that agree on k whole
+   blocks and have equally long tails shorter than a block: the stale-file pairs of the sweep are drawn from this set *)
+Theorem C12_identical_tail_len_iff : forall (A : Type) (eqb : A -> A -> bool),
+  (forall x y, eqb x y = true <-> x = y) -> forall B : nat, B > 0 ->
+  forall a b : list A, identical_tail_len A eqb B a b = true <-> IdenticalFilesProofs.tail_confusable A B a b.
+Proof. exact IdenticalFilesProofs.identical_tail_len_iff. Qed.
+Print Assumptions C12_identical_tail_len_iff.
+
+Theorem C12_identical_tail_len_refuted : exists (B : nat) (a b : list N),
+  B > 0 /\ a <> b /\ identical_tail_len N N.eqb B a b = true /\ identical N N.eqb B a b = false.
+Proof. exact IdenticalFilesProofs.identical_tail_len_refuted. Qed.
+Print Assumptions C12_identical_tail_len_refuted.
+
+(* B > 0 cannot be dropped *)
+Theorem C12_identical_block0_refuted : exists (a b : list N), a <> b /\ identical N N.eqb 0 a b = true.
+Proof. exact IdenticalFilesProofs.identical_block0_refuted. Qed.
+Print Assumptions C12_identical_block0_refuted.
+
+(* what is at the path of a per-type file / a copied skeleton file after the run is what a run into an empty directory
+   leaves there, whatever was there before (absent, any regular file, a symbolic link) *)
+Theorem C12_save_type_is_fresh : forall (A : Type) (eqb : A -> A -> bool),
+  (forall x y, eqb x y = true <-> x = y) -> forall B : nat, B > 0 ->
+  forall (old : entry A) (new : list A), save_type A eqb B old new = fresh_type A new.
+Proof. exact IdenticalFilesProofs.save_type_is_fresh. Qed.
+Print Assumptions C12_save_type_is_fresh.
+
+Theorem C12_copy_skel_is_fresh : forall (A : Type) (eqb : A -> A -> bool),
+  (forall x y, eqb x y = true <-> x = y) -> forall B : nat, B > 0 ->
+  forall (old : entry A) (src : list A), copy_skel A eqb B old src = fresh_type A src.
+Proof. exact IdenticalFilesProofs.copy_skel_is_fresh. Qed.
+Print Assumptions C12_copy_skel_is_fresh.
+
+(* ... which the length-only tail breaks: a stale one-block file survives *)
+Theorem C12_save_type_tail_len_refuted : exists (B : nat) (old : entry N) (new : list N),
+  B > 0 /\ save_type_tail_len N N.eqb B old new <> fresh_type N new.
+Proof. exact IdenticalFilesProofs.save_type_tail_len_refuted. Qed.
+Print Assumptions C12_save_type_tail_len_refuted.
+
+(* the two dependences on the old entry that asn1c has: -flink-skeletons keeps whatever is there (documented:
+   "Retaining local ..."); the files rewritten in place follow a symbolic link (finding C12-inplace-file-through-symlink) *)
+Theorem C12_link_skel_retains : forall (A : Type) (old : entry A) (path : nat), old <> Absent A -> link_skel A old path = old.
+Proof. exact IdenticalFilesProofs.link_skel_retains. Qed.
+Print Assumptions C12_link_skel_retains.
+
+Theorem C12_write_inplace_regular_is_fresh : forall (A : Type) (old : entry A) (new : list A),
+  (forall t, old <> Link A t) -> write_inplace A old new = (Reg A new, None).
+Proof. exact IdenticalFilesProofs.write_inplace_regular_is_fresh. Qed.
+Print Assumptions C12_write_inplace_regular_is_fresh.
+
+Theorem C12_write_inplace_follows_link : forall (A : Type) (t : nat) (new : list A),
+  write_inplace A (Link A t) new = (Link A t, Some new).
+Proof. exact IdenticalFilesProofs.write_inplace_follows_link. Qed.
+Print Assumptions C12_write_inplace_follows_link.
+
+Theorem C12_identical_examples :
+  identical_N 4 [1;2;3;4;5;6;7;8;9]%N [1;2;3;4;5;6;7;8;9]%N = true /\
+  identical_N 4 [1;2;3;4;5;6;7;8;9]%N [1;2;0;4;5;6;7;8;9]%N = false /\
+  identical_N 4 [1;2;3;4;5;6;7;8;9]%N [1;2;3;0;5;6;7;8;9]%N = false /\
+  identical_N 4 [1;2;3;4;5;6;7;8;9]%N [1;2;3;4;0;6;7;8;9]%N = false /\
+  identical_N 4 [1;2;3;4;5;6;7;8;9]%N [1;2;3;4;5;6;7;8;0]%N = false /\
+  identical_N 4 [1;2;3;4;5;6;7;8]%N [1;2;3;4;5;6;7;8;9]%N = false /\
+  identical_N 4 [1;2;3;4;5;6;7;8;9]%N [1;2;3;4;5;6;7;8]%N = false /\
+  identical_N 4 []%N []%N = true /\ identical_N 4 []%N [1]%N = false /\ identical_N 4 [1]%N []%N = false.
+Proof. exact IdenticalFilesProofs.identical_examples. Qed.
+Print Assumptions C12_identical_examples.
+
+(* a whole run in the copy modes (the directory as a map path -> entry, the files written in asn1c's order, a path possibly
+   more than once): every file the run writes is what a run into an EMPTY directory leaves there, whatever the directory
+   held — provided no symbolic link sits where a file is rewritten in place — and every other entry is left alone:
+   the statement the oracle `oracle:outdir-state` evaluates on the C *)
+Theorem C12_run_dir_is_fresh : forall (A : Type) (eqb : A -> A -> bool),
+  (forall x y, eqb x y = true <-> x = y) -> forall B : nat, B > 0 ->
+  forall (outs : list (nat * wop A)) (d : dir A), nolink A d outs ->
+  forall q, In q (map fst outs) -> run_dir A eqb B d outs q = run_dir A eqb B (empty_dir A) outs q.
+Proof. exact IdenticalFilesProofs.run_dir_is_fresh. Qed.
+Print Assumptions C12_run_dir_is_fresh.
+
+Theorem C12_run_dir_untouched : forall (A : Type) (eqb : A -> A -> bool) (B : nat)
+  (outs : list (nat * wop A)) (d : dir A) (q : nat),
+  ~ In q (map fst outs) -> run_dir A eqb B d outs q = d q.
+Proof. exact IdenticalFilesProofs.run_dir_untouched. Qed.
+Print Assumptions C12_run_dir_untouched.
+
+(* the side condition cannot be dropped (finding C12-inplace-file-through-symlink) *)
+Theorem C12_run_dir_link_refuted : exists (d : dir N) (outs : list (nat * wop N)) (q : nat),
+  In q (map fst outs) /\ run_dir N N.eqb 4096 d outs q <> run_dir N N.eqb 4096 (empty_dir N) outs q.
+Proof. exact IdenticalFilesProofs.run_dir_link_refuted. Qed.
+Print Assumptions C12_run_dir_link_refuted.
